@@ -21,7 +21,8 @@ RULE = (
     "(equal_beziers, end_points) in {T,F}^2 and A & B: tuple ranges, A.segments[a](u) == B.segments[b](v) (exact for "
     "lines, 1e-6 curved), every reference crossing reported (each exactly once up to the end-point duplicates), even "
     "count in general position, swap symmetry, (None, None) iff the two segments are the same Bezier, flags filter "
-    "exactly the documented entries. non-trivial = the curves meet; distinct = ordered pair."
+    "exactly the documented entries; for 10 curves the same after the two curve objects have been intersected, moved / rotated in "
+    "place and intersected again. non-trivial = the curves meet; distinct = ordered pair."
 )
 ASSUMPTIONS = ["curved reference crossings by box subdivision to 1e-11 (mc/refgeo.py); tangential contacts are not in the alphabets"]
 CASE_TIMEOUT = 900
@@ -55,6 +56,11 @@ def cases(tier, seed):
         polys = [p for p in polys if p[0] == "V" or any(n in p[1] for n in ("sqA", "sqB", "triA", "bar", "dia", "L#", "U#"))]
     for a in polys:
         specs.append({"id": "poly:%s" % al.expr_id(a), "A": a, "Bs": polys})
+    # the same objects intersected, transformed in place, intersected again
+    hp = [p for p in polys if p[0] == "L" and p[1].endswith(("#int", "#float"))][:8] + [["L", "Q.c8"], ["L", "Q.lens"]]
+    for warm in ("move", "rotate", "far-move"):
+        for a in hp:
+            specs.append({"id": "warm-%s:%s" % (warm, al.expr_id(a)), "A": a, "Bs": hp, "warm": warm})
     tt = progs.pairs_tt(tier, seed, k=16)
     for n in range(0, len(tt), 60):
         chunk = tt[n : n + 60]
@@ -97,15 +103,30 @@ def reference_contacts(ca, cb):
     return pts, equal, overlap
 
 
-def judge_pair(ea, eb, hist, viols, nontrivial):
+def judge_pair(ea, eb, hist, viols, nontrivial, warm=None):
     pid = "%s x %s" % (al.expr_id(ea), al.expr_id(eb))
     A, B = al.lib_eval(ea).jordans[0], al.lib_eval(eb).jordans[0]
+    if warm is not None:
+        # the same curve objects have been intersected before and were then transformed in
+        # place: the answer must be the one for the current geometry
+        pid += " after [%s]" % warm
+        A.intersection(B)
+        B.intersection(A)
+        if warm == "move":
+            A.move(3, 2)
+            B.move(-1, 0)
+        elif warm == "rotate":
+            A.rotate(90, degrees=True)
+        elif warm == "far-move":
+            A.move(100, 0)
+            A.intersection(B)
+            A.move(-97, 1)
     ca, cb = rg.jordan_curve(A), rg.jordan_curve(B)
     poly = ca.is_poly and cb.is_poly
     exact = poly and oc.is_exact([ca, cb])
     size = max(ca.size(), cb.size())
     ptol = F(0) if exact else size / 10**6
-    rep = {"id": "replay:" + pid, "A": ea, "Bs": [eb]}
+    rep = {"id": "replay:" + pid, "A": ea, "Bs": [eb], "warm": warm}
 
     def fail(tag, msg):
         viols.append({"case_id": "%s :: %s" % (pid, tag), "what": msg, "replay": rep})
@@ -216,7 +237,7 @@ def run_case(spec):
     evals = 0
     if "Bs" in spec:
         for eb in spec["Bs"]:
-            judge_pair(spec["A"], eb, hist, viols, nontrivial)
+            judge_pair(spec["A"], eb, hist, viols, nontrivial, spec.get("warm"))
             evals += 6
     if "pairs" in spec:
         for x, y in spec["pairs"]:
